@@ -467,7 +467,80 @@ def veto(path, limit):
     finally:
         random.choice, random.uniform, random.expovariate = _real_choice, _real_uniform, real_exp
         setting.reset()
+    # the composite-object variant: whatever the estimator says about the *target's* charges, the event is confirmed against
+    # the bound that was stored for the sampled offset when the event was proposed (times the factor of the active unit)
+    try:
+        n += _composite_confirmation(fails)
+    finally:
+        random.choice, random.uniform, random.expovariate = _real_choice, _real_uniform, real_exp
+        setting.reset()
     json.dump(dict(evaluations=n, fails=fails[:10]), sys.stdout)
+
+
+def _composite_confirmation(fails):
+    import jellyfysh.setting as setting
+    from jellyfysh.base.node import Node
+    from jellyfysh.base.time import Time
+    from jellyfysh.base.unit import Unit
+    from jellyfysh.setting import hypercubic_setting
+    from jellyfysh.event_handler.composite_object_cell_veto_event_handler import CompositeObjectCellVetoEventHandler
+    from jellyfysh.activator.internal_state.cell_occupancy.cells.cuboid_periodic_cells import CuboidPeriodicCells
+    setting.reset()
+    hypercubic_setting.HypercubicSetting(beta=1.0, dimension=3, system_length=20.0)
+    setting.set_number_of_root_nodes(2)
+    setting.set_number_of_nodes_per_root_node(2)
+    setting.set_number_of_node_levels(2)
+
+    class Pot:
+        number_separation_arguments = 1
+        number_charge_arguments = 2
+
+        def derivative(self, velocity, separation, c1, c2):
+            return 1.0 if c2 > c1 else -0.25            # the active unit is pushed by every unit of the other object
+
+    class Est:
+        potential = Pot()
+
+        def derivative_bound(self, lower_corner, upper_corner, direction, calculate_lower_bound=False):
+            return (8.0, -8.0) if calculate_lower_bound else 8.0
+
+        def charge_correction_factor(self, active_charges, target_charges=None):
+            return 1.0 if target_charges is None else 0.5    # a factor that depends on the target exists, but is not to be used
+
+    cells = CuboidPeriodicCells(cells_per_side=[4, 4, 4], neighbor_layers=1)
+    calls = []
+
+    def uniform(a, b):
+        calls.append((a, b))
+        return a
+    random.uniform, random.expovariate = uniform, (lambda beta: 1.0)
+    count = 0
+    from jellyfysh.lifting.inside_first_lifting import InsideFirstLifting
+    with open(os.devnull, "w") as devnull, contextlib.redirect_stdout(devnull):
+        h = CompositeObjectCellVetoEventHandler(estimator=Est(), lifting=InsideFirstLifting(), charge="q")
+        h.initialize(cells, 1)
+    for k in range(20):
+        def branch(m, active):
+            root = Node(Unit((m,), [2.5 + 10 * m, 2.5, 2.5], velocity=[0.5, 0.0, 0.0] if active else None,
+                             time_stamp=Time.from_float(0.0) if active else None), weight=1)
+            for j in range(2):
+                act = active and j == 0
+                root.add_child(Node(Unit((m, j), [2.5 + 10 * m + 0.1 * j, 2.5, 2.5 + 0.01 * k], charge={"q": float(10 * m + j + 1)},
+                                         velocity=[1.0, 0.0, 0.0] if act else None,
+                                         time_stamp=Time.from_float(0.0) if act else None), weight=0.5))
+            return root
+        del calls[:]
+        h.send_event_time([branch(0, True)])
+        stored = h._bounding_event_rate
+        before = len(calls)
+        h.send_out_state(branch(1, False))
+        count += 1
+        confirm = calls[before] if len(calls) > before else None
+        if confirm is None or confirm[1] != stored:
+            fails.append(dict(what="cell-veto handler: composite-object event not confirmed against the stored bound",
+                              detail="confirmation draw over %r, bound stored for the sampled offset: %r" % (confirm, stored)))
+            break
+    return count
 
 
 if __name__ == "__main__":
